@@ -125,6 +125,12 @@ CHECKS["C16"] = dict(
     text="REINFORCE with every baseline and advantage scaling, A2C, POMO, SymNCO (incl. n_aug != n_start) and PPO are stepped on small alphabet batches; the library loss and its gradient w.r.t. every policy / critic parameter must equal the reference surrogate rebuilt from reward, log-likelihood and an independent baseline value; rewards and baselines must carry no gradient; warm-up weights and EMA states are tracked across steps.",
     ref="DESIGN.md section 4 C16",
 )
+CHECKS["C19"] = dict(
+    engine="E2 ProductExplorer",
+    technique="lock-step bisimulation of an original and its round-tripped twin along ALL action sequences of small alphabet instances (npz, text files, deepcopy, pickle), content comparison + extreme schedules for generated dataset files, parameter / greedy-solution comparison for training checkpoints",
+    text="Every environment's alphabet instances go through npz save/load and (FJSP/JSSP) text write/read, every environment through deepcopy and pickle (fresh and after a reset), generated dataset files through the environment's loader, and REINFORCE/POMO/A2C/PPO models through save_checkpoint/load_from_checkpoint; original and twin are stepped in lock-step over all action sequences and must agree on masks, done and reward; restored policies must give identical greedy solutions.",
+    ref="DESIGN.md section 4 C19",
+)
 
 NOT_YET = {}
 
